@@ -28,10 +28,11 @@ ASSUMPTIONS = ["^ binds tighter than unary minus, which binds tighter than * / M
 REQUIRED = {"documents_compiled": 20, "variables_compared": 1000, "loud_cases": 8, "ir_nodes_seen": 1000}
 BUDGET_S = {"quick": 110, "thorough": 1500}
 
+CLOCKVAR = ("clock var", "TIME*2 + 1", lambda t: t * 2 + 1)     # a variable that moves with time (INIT / DELAY of a reference)
 CONSTS = [("alpha", 7.0), ("beta_gamma", 3.0), ("Delta Eps", 2.0), ("ZETA", 1.5), ("eta1", 0.5), ("Theta_X y", 4.0), ("nu", -2.5), ("rate+x#1", 2.5), ("alpha_twin", 7.0)]
 BIN = ["+", "-", "*", "/", "**", "%"]
 CMP = ["<", ">", "<=", ">=", "==", "!="]
-FN1 = ["ABS", "INT", "SQRT", "EXP", "LN", "LOG10", "SIN", "COS", "TAN", "ROUND", "PERCENT"]
+FN1 = ["ABS", "INT", "SQRT", "EXP", "LN", "LOG10", "SIN", "COS", "TAN", "ROUND", "PERCENT", "ARCSIN", "ARCCOS", "ARCTAN", "GAMMALN"]
 RUN = dict(start="1", stop="5", dt="0.5")
 TIMES = [1.0, 1.5, 5.0]
 
@@ -42,7 +43,31 @@ def sname(n):
 
 
 class XEnv(X.Env):
+    def ref(self, name):
+        if name == CLOCKVAR[0]:
+            return CLOCKVAR[2](self.t)
+        return self.vals[name]
+
+    def at(self, t):
+        e = XEnv(self.vals, t=t)
+        e.parent = self
+        return e
+
+    def cond(self, dist, scale=1.0):
+        X.Env.cond(self, dist, scale)
+        p = getattr(self, "parent", None)
+        if p is not None:
+            p.cond(dist, scale)
+
     def builtin(self, a):
+        if a[0] == "dt":
+            return float(RUN["dt"])
+        if a[0] == "starttime":
+            return float(RUN["start"])
+        if a[0] == "stoptime":
+            return float(RUN["stop"])
+        if a[0] == "pi":
+            return math.pi
         if a[0] != "call":
             raise KeyError(a[0])
         n = a[1]
@@ -75,6 +100,22 @@ class XEnv(X.Env):
             if n == "TAN" and abs(math.cos(x)) < 1e-3:
                 raise X.IllConditioned("tan")
             return getattr(math, n.lower())(x)
+        if n in ("ARCSIN", "ARCCOS"):
+            if abs(x) > 0.999:
+                raise X.IllConditioned("arc domain")
+            return math.asin(x) if n == "ARCSIN" else math.acos(x)
+        if n == "ARCTAN":
+            return math.atan(x)
+        if n == "GAMMALN":
+            if x < 1e-3 or x > 150:
+                raise X.IllConditioned("gammaln domain")
+            return math.lgamma(x)
+        if n == "ROOTN":
+            if x < 1e-6:
+                raise X.IllConditioned("rootn of a non-positive number")
+            return x ** (1.0 / args[1])
+        if n == "FACTORIAL":
+            return float(math.factorial(int(x)))
         if n == "ROUND":
             self.cond((x - math.floor(x)) - 0.5)
             return float(round(x))
@@ -137,8 +178,20 @@ def _ev(a, env):
         return _ev(a[1], env) or _ev(a[2], env)
     if a[0] == "not":
         return not _ev(a[1], env)
+    if a[0] == "call" and a[1] == "INIT":
+        # the value the argument had at the start of the run
+        return _ev(a[2], env.at(float(RUN["start"])))
+    if a[0] == "call" and a[1] == "DELAY":
+        # DELAY(input, d[, initial]) with d a literal multiple of dt: input as of d ago; before that the given initial value (generated
+        # time-free), or else the input's value at the start of the run
+        d = a[3][1]
+        if env.t - float(RUN["start"]) < d:
+            return _ev(a[4], env) if len(a) > 4 else _ev(a[2], env.at(float(RUN["start"])))
+        return _ev(a[2], env.at(env.t - d))
     if a[0] == "call":
         return env.builtin(["call", a[1]] + [["num", _ev(z, env)] for z in a[2:]])
+    if a[0] in ("dt", "starttime", "stoptime", "pi"):
+        return env.builtin(a)
     return X.ev(a, env)
 
 
@@ -151,8 +204,12 @@ def leaf(rng):
         return rng.choice(REFS)
     if r < 0.85:
         return ["num", rng.choice([2.0, 0.25, 3.0, 10.0, 1.5, 1234.5678, 3.14159265, 0.000123456789])]
-    if r < 0.93:
+    if r < 0.91:
         return ["time"]
+    if r < 0.94:
+        return rng.choice([["dt"], ["starttime"], ["stoptime"], ["pi"]])
+    if r < 0.97:
+        return ["ref", CLOCKVAR[0]]
     return ["ref", "nu"]
 
 
@@ -187,7 +244,15 @@ def rand_tree(rng, depth):
         return ["if", rand_cond(rng, depth), rand_tree(rng, depth - 1), rand_tree(rng, depth - 1)]
     if r < 0.9:
         return ["call", rng.choice(FN1), rand_tree(rng, depth - 1)]
-    k = rng.choice(["MIN", "MAX", "SAFEDIV", "SAFEDIV3", "STEP", "RAMP"])
+    k = rng.choice(["MIN", "MAX", "SAFEDIV", "SAFEDIV3", "STEP", "RAMP", "INIT", "DELAY", "DELAY3", "ROOTN"])
+    if k == "INIT":
+        return ["call", "INIT", rand_tree(rng, depth - 1)]
+    if k == "DELAY":
+        return ["call", "DELAY", rand_tree(rng, depth - 1), ["num", rng.choice([0.5, 1.0, 2.0])]]
+    if k == "DELAY3":
+        return ["call", "DELAY", rand_tree(rng, depth - 1), ["num", rng.choice([0.5, 1.0, 2.0])], rng.choice(REFS + [["num", 99.0]])]
+    if k == "ROOTN":
+        return ["call", "ROOTN", rand_tree(rng, depth - 1), ["num", rng.choice([2.0, 3.0])]]
     if k == "SAFEDIV3":
         return ["call", "SAFEDIV", rand_tree(rng, depth - 1), rand_tree(rng, depth - 1), ["num", 9.0]]
     if k in ("STEP", "RAMP"):
@@ -226,6 +291,28 @@ def table():
         out.append(("PULSE<-%s" % iname, ["call", "PULSE", inner, ["num", 1.5], ["num", 1.0]]))
         out.append(("STEP<-%s" % iname, ["call", "STEP", inner, ["num", 1.25]]))
         out.append(("RAMP<-%s" % iname, ["call", "RAMP", inner, ["num", 1.25]]))
+    # INIT / DELAY of arguments that move with time (TIME itself, a moving variable, compounds of them), alone and as operands
+    T, CV = ["time"], ["ref", CLOCKVAR[0]]
+    movers = [("time", T), ("clockvar", CV)] + [("time%s" % op, ["bin", op, T, B]) for op in BIN] + [("clockvar%s" % op, ["bin", op, B, CV]) for op in ("+", "-", "*", "/")] + \
+             [("neg-time", ["neg", T]), ("if-time", ["if", ["cmp", ">", T, ["num", 2.25]], CV, A]), ("init-in-delay", ["call", "INIT", ["bin", "*", T, B]]),
+              ("delay-in", ["call", "DELAY", CV, ["num", 0.5]]), ("sin-time", ["call", "SIN", T]), ("step-time", ["call", "STEP", B, ["num", 2.25]])]
+    for (iname, inner) in movers:
+        out.append(("INIT<-%s" % iname, ["call", "INIT", inner]))
+        out.append(("INIT-in-<-%s" % iname, ["bin", "-", A, ["bin", "*", ["call", "INIT", inner], T]]))
+        for d in (0.5, 1.0, 3.0):
+            out.append(("DELAY%s<-%s" % (d, iname), ["call", "DELAY", inner, ["num", d]]))
+            out.append(("DELAY3%s<-%s" % (d, iname), ["call", "DELAY", inner, ["num", d], E]))
+        out.append(("DELAY-in-<-%s" % iname, ["bin", "-", A, ["bin", "**", ["call", "DELAY", inner, ["num", 1.0]], ["num", 2.0]]]))
+    for (iname, inner) in inners:
+        out.append(("ROOTN<-%s" % iname, ["call", "ROOTN", inner, ["num", 3.0]]))
+        out.append(("ROOTN-in-<-%s" % iname, ["bin", "/", A, ["call", "ROOTN", inner, ["num", 2.0]]]))
+    for nm in ("dt", "starttime", "stoptime", "pi"):
+        for op in BIN:
+            out.append(("%s@0-%s" % (nm, op), ["bin", op, [nm], B]))
+            out.append(("%s@1-%s" % (nm, op), ["bin", op, A, [nm]]))
+        out.append(("neg-%s" % nm, ["bin", "**", ["neg", [nm]], ["num", 2.0]]))
+    for k_ in range(0, 7):
+        out.append(("FACTORIAL-%d" % k_, ["bin", "-", A, ["call", "FACTORIAL", ["num", float(k_)]]]))
     c1, c2, c3 = ["cmp", "<", A, B], ["cmp", ">", ["bin", "+", B, C], D], ["cmp", "==", C, C]
     for key, cond in (("and", ["and", c1, c2]), ("or", ["or", c1, c2]), ("and-or", ["or", ["and", c1, c2], c3]), ("or-and", ["or", c1, ["and", c2, c3]]),
                       ("not", ["not", c1]), ("not-and", ["and", ["not", c1], c2]), ("and-and", ["and", ["and", c2, c3], c1])):
@@ -275,6 +362,7 @@ def style(i, rng):
         st = XM.Style(rng, spaces=True, case="mixed", redundant=0.5)
         for n, _ in CONSTS:
             names[n] = n.replace(" ", "_").capitalize()
+    names[CLOCKVAR[0]] = {0: "clock_var", 1: "CLOCK_VAR", 2: "clock_var", 3: "Clock_Var"}[i]
     names["rate+x#1"] = '"rate+x#1"' if i != 2 else '"RATE+X#1"'     # a name with operator characters is always quoted
     st.names = names
     return st
@@ -386,7 +474,7 @@ def run_case(case):
             tree = rand_tree(rng, rng.choice([2, 3, 4, 5]))
             for sidx in rng.sample(range(4), 2):
                 eqs.append(("r%d_s%d" % (i, sidx), None, tree, sidx))
-    els = [dict(kind="aux", name=n, eqn=(repr(v) if v >= 0 else "0 - %r" % abs(v))) for n, v in CONSTS]
+    els = [dict(kind="aux", name=n, eqn=(repr(v) if v >= 0 else "0 - %r" % abs(v))) for n, v in CONSTS] + [dict(kind="aux", name=CLOCKVAR[0], eqn=CLOCKVAR[1])]
     styles = {i: style(i, random.Random(i)) for i in range(4)}
     printed = {}
     from BPTK_Py.sdcompiler.parsers.smile.grammar import grammar, SMILEVisitor
